@@ -284,6 +284,13 @@ Definition pcoll (s : state) a p := match prods s a p with Some x => p_coll x | 
 Definition pmint (s : state) a p := match prods s a p with Some x => p_mint x | None => 0 end.
 Definition pids (s : state) a p := match prods s a p with Some x => p_ids x | None => [] end.
 
+(* ---------- the configuration: what x/asset accepts for an extended pair ---------- *)
+(* WasmAddExtendedPairsVaultRecords (x/asset/keeper/pairs_vault.go:154-164) rejects a draw-down fee
+   outside [0,1) and a closing fee outside [0,1); extended pair ids are unique keys; a pair's two assets differ (AddPairsRecords) *)
+Definition ep_ok (e : epair) : Prop := 0 <= ep_ddf e < P18 /\ ep_in e <> ep_out e /\ 0 <= ep_closing e.
+Definition cfg_ok (c : cfg) : Prop :=
+  NoDup (map ep_id (epairs c)) /\ forall e, In e (epairs c) -> ep_ok e.
+
 (* ---------- the single record an operation touches ---------- *)
 Inductive bchange :=
 | BNone
@@ -311,6 +318,11 @@ Definition bc_svaults bc (l : list svault) := match bc with
 Definition bc_ids bc (ids : list Z) := match bc with
   | BNew v => ids ++ [v_id v] | SNew x => ids ++ [sv_id x] | BDel v0 => del_id ids (v_id v0) | _ => ids end.
 
+(* amounts of a vault record are never negative *)
+Definition wfv (v : vault) : Prop := 0 <= v_in v /\ 0 <= v_out v /\ 0 <= v_int v /\ 0 <= v_fee v.
+Definition VWf (s : state) : Prop := forall v, In v (vaults s) -> wfv v.
+Definition bc_wf bc : Prop := match bc with BUpd _ v1 => wfv v1 | BNew v => wfv v | _ => True end.
+
 (* what the record [bc] has to satisfy before the operation *)
 Definition bc_pre (c : cfg) (s : state) bc : Prop :=
   match bc with
@@ -322,9 +334,13 @@ Definition bc_pre (c : cfg) (s : state) bc : Prop :=
   | SNew x => sv_id x = sid s + 1 /\ exists ep, get_ep c (sv_pair x) = Some ep /\ ep_stable ep = true
   end.
 
-(* the effect of an operation: books, environment, custody and supply *)
-Record effect (c : cfg) (s s' : state) (bc : bchange) : Prop := mkEffect {
+(* the effect of a successful message of sender [from]: books, environment, and the complete
+   ledger: collateral moves between the sender and custody exactly as the touched record's
+   AmountIn, the sender's debt-denom balance moves as the record's AmountOut less [fee], the
+   collector receives [fee], supply moves as the record's AmountOut *)
+Record effect (c : cfg) (s s' : state) (from : Z) (bc : bchange) (fee : Z) : Prop := mkEffect {
   ef_pre : bc_pre c s bc;
+  ef_wf : bc_wf bc;
   ef_vaults : vaults s' = bc_vaults bc (vaults s);
   ef_svaults : svaults s' = bc_svaults bc (svaults s);
   ef_vlen : vlen s' = match bc with BNew _ => vlen s + 1
@@ -336,11 +352,13 @@ Record effect (c : cfg) (s s' : state) (bc : bchange) : Prop := mkEffect {
   ef_coll : forall a p, pcoll s' a p = pcoll s a p + (if touched bc a p then bc_din bc else 0);
   ef_mint : forall a p, pmint s' a p = pmint s a p + (if touched bc a p then bc_dout bc else 0);
   ef_ids : forall a p, pids s' a p = if touched bc a p then bc_ids bc (pids s a p) else pids s a p;
-  (* custody moves exactly with the recorded collateral of the touched record (plus unsolicited) *)
-  ef_custody : forall d, bal s' VAULT d - bal s VAULT d =
-                         (if denom_in c (bc_pair bc) =? d then bc_din bc else 0) + (unsol s' d - unsol s d);
-  (* supply moves exactly with the recorded principal of the touched record *)
-  ef_supply : forall d, sup s' d - sup s d = (if denom_out c (bc_pair bc) =? d then bc_dout bc else 0);
+  ef_fee : 0 <= fee;
+  ef_bal : forall a x, bal s' a x = bal s a x
+             + xfer from VAULT (denom_in c (bc_pair bc)) (bc_din bc) a x
+             + at2 from (denom_out c (bc_pair bc)) (bc_dout bc - fee) a x
+             + at2 COLL (denom_out c (bc_pair bc)) fee a x;
+  ef_sup : forall d, sup s' d = sup s d + at1 (denom_out c (bc_pair bc)) (bc_dout bc) d;
+  ef_unsol : unsol s' = unsol s;
   ef_env : now s' = now s /\ price s' = price s /\ esm s' = esm s /\ snap s' = snap s /\ brk s' = brk s
 }.
 
@@ -405,37 +423,17 @@ Definition ProdsExist (s : state) : Prop :=
   (forall v, In v (vaults s) -> pfound s (v_app v) (v_pair v) = true) /\
   (forall x, In x (svaults s) -> pfound s (sv_app x) (sv_pair x) = true).
 
-(* ---------- symbolic execution ---------- *)
-Ltac ssimpl := cbn [vaults svaults prods umap vlen vid sid bal sup now price esm snap brk unsol
-   set_vaults set_svaults set_prods set_umap set_vlen set_vid set_sid set_bal set_sup set_now set_price
-   set_esm set_snap set_brk set_unsol] in *.
+(* ---------- a rejected message changes nothing (baseapp's cache context) ---------- *)
+Lemma step_ok c s o s' : run c s o = Ok s' -> step c s o = s'.
+Proof. intros H. unfold step, apply, uow. rewrite H. reflexivity. Qed.
 
-Ltac bool_norm :=
-  repeat match goal with
-  | H : negb _ = false |- _ => apply negb_false_iff in H
-  | H : negb _ = true |- _ => apply negb_true_iff in H
-  | H : (_ =? _) = true |- _ => apply Z.eqb_eq in H
-  | H : andb _ _ = true |- _ => apply andb_true_iff in H; destruct H
-  end.
+Lemma step_rejected c s o : is_ok (run c s o) = false -> step c s o = s.
+Proof. unfold step, apply, uow. destruct (run c s o); [discriminate|reflexivity|reflexivity]. Qed.
 
-Ltac inv1 H :=
-  lazymatch type of H with
-  | Ok _ = Ok _ => injection H as H
-  | Err _ = Ok _ => discriminate H
-  | Panic = Ok _ => discriminate H
-  | obind ?x _ = Ok _ => let E := fresh "E" in destruct x eqn:E; cbn [obind] in H; [|discriminate H|discriminate H]
-  | (if ?b then _ else _) = Ok _ => let C := fresh "C" in destruct b eqn:C
-  | match ?x with _ => _ end = Ok _ =>
-      first [ match goal with M : x = _ |- _ => rewrite M in H end
-            | let M := fresh "M" in destruct x eqn:M ]
-  end.
-
-Ltac inv_all :=
-  repeat (ssimpl; match goal with
-  | H : send _ _ _ _ _ = Ok _ |- _ => unfold send in H
-  | H : mint _ _ _ = Ok _ |- _ => unfold mint in H
-  | H : burn _ _ _ = Ok _ |- _ => unfold burn in H
-  | H : update_collector _ _ = Ok _ |- _ => unfold update_collector in H
-  | H : pay_out _ _ _ _ _ = Ok _ |- _ => unfold pay_out in H
-  | H : _ = Ok _ |- _ => progress (inv1 H; try discriminate; try subst)
-  end).
+Lemma step_cases c s o : (exists s', run c s o = Ok s' /\ step c s o = s') \/ (is_ok (run c s o) = false /\ step c s o = s).
+Proof.
+  destruct (run c s o) as [s'| |] eqn:E.
+  - left. exists s'. split; [reflexivity|apply step_ok; exact E].
+  - right. split; [reflexivity|apply step_rejected; rewrite E; reflexivity].
+  - right. split; [reflexivity|apply step_rejected; rewrite E; reflexivity].
+Qed.
